@@ -198,6 +198,24 @@ func storeSpecs(prop string, under []Kind, tier string, depthQuick, depthThoroug
 				tune(sp, &o)
 			}
 			sp.Ops = storeAlphabet(o)
+			if mc.MapOrderControlled {
+				// order deviations for the operations that walk a map: a sparse source
+				// (merge, encode) or a protobuf bin map (sparse or paginated source)
+				for _, ord := range mapOrders {
+					if b.K == 'S' {
+						sp.Ops = append(sp.Ops, withOrder(opMerge(0, 1), ord), withOrder(opCodec(0, 1, false), ord))
+					}
+					if a.K == 'S' {
+						sp.Ops = append(sp.Ops, withOrder(opMerge(1, 0), ord), withOrder(opCodec(1, 0, false), ord), withOrder(opCodec(0, 0, true), ord))
+					}
+					if (b.K == 'S' || b.K == 'P') && o.proto {
+						sp.Ops = append(sp.Ops, withOrder(opProto(0, 1, true), ord))
+					}
+					if (a.K == 'S' || a.K == 'P') && o.proto {
+						sp.Ops = append(sp.Ops, withOrder(opProto(1, 0, true), ord))
+					}
+				}
+			}
 			out = append(out, sp)
 		}
 	}
